@@ -18,7 +18,7 @@ for p in props:
             "engine": c.get("engine", "vx"),
             "level_claimed": {"category": "proof", "text": c["text"], "design_ref": c.get("design_ref", "DESIGN.md section 5 " + pid)},
             "level_note": c["note"],
-            "technique": c.get("technique", "contract-based deductive verification (Verus) of functions extracted mechanically from /repo"),
+            "technique": c.get("technique", "contract-based deductive verification (Verus; z3/cvc5 for NRA side lemmas) of functions extracted mechanically from /repo on every run; after all obligations are discharged a witness probe on the real crate runs as a BOUNDED stand-in (labelled bounded, never counted as proved) for the clauses listed as not decided"),
         })
     else:
         na.append({"property_id": pid, "reason": claims["not_applicable"][pid]})
